@@ -3,7 +3,7 @@
    field, in particular the reals and the complex numbers), un / bin are arbitrary cell functions
    (numpy's non-algebraic ufuncs), expression trees have arbitrary depth, meshes any number of cells. *)
 From Coq Require Import Qcanon.
-From DF Require Import Prelude FieldK Region Mesh Ops C03_proofs C03_more.
+From DF Require Import Prelude FieldK Region Mesh Ops C03_proofs C03_more ListLemmas CheckSound Check_C03 C03_sound.
 
 Definition RLaws (K : FOps) : Prop :=
   ring_theory (f0 K) (f1 K) (@fadd K) (@fmul K) (@fsub K) (@fopp K) eq.
@@ -104,3 +104,199 @@ Theorem C03_pure_alias_is_operand : forall (K : FOps) un bin (rho : list (field 
   alias_of e = Some i -> eval K un bin rho e = OK v -> exists f, nth_error rho i = Some f /\ v = VF f.
 Proof. exact alias_is_operand. Qed.
 Print Assumptions C03_pure_alias_is_operand.
+
+(* ---------- soundness of the correspondence checker check_C03 and transfer of the theorems above to
+   the OBSERVED outputs (proofs/C03_sound.v).  model_eval = the evaluator on the recorded operands at
+   the complex rationals; cells_within tol = every component within |re|+|im| distance tol. ---------- *)
+(* the implementation raised and the case was accepted: the model rejects the expression *)
+Theorem C03_check_rejected_sound : forall tol mls fls e t1 t2 oa,
+  check_C03 (CExpr tol mls fls e t1 t2 None oa) = true ->
+  exists er, model_eval tol mls fls e t1 t2 = Err er.
+Proof. exact check_expr_rej_sound. Qed.
+Print Assumptions C03_check_rejected_sound.
+
+(* the implementation returned a field and the case was accepted: the model returns a field with the same
+   mesh (Mesh.__eq__), component count, validity, labels, mapping (as a set), identity, and an array
+   within the case tolerance of the observed one *)
+Theorem C03_check_accepted_sound : forall tol mls fls e t1 t2 mi nv cells valid vd vm oa,
+  check_C03 (CExpr tol mls fls e t1 t2 (Some (mi, nv, cells, valid, vd, vm)) oa) = true ->
+  exists f, model_eval tol mls fls e t1 t2 = OK (VF f) /\
+    mesh_same (fmesh f) (nth mi (map build_mesh mls) dmesh) /\
+    fnv f = nv /\
+    Forall (fun v => length v = nv) (farr f) /\
+    cells_within tol (farr f) (cells_cq cells) /\
+    fvalid f = valid /\ fvdims f = vd /\ vmap_same (fvmap f) vm /\
+    alias_of e = oa.
+Proof. exact check_expr_ok_sound. Qed.
+Print Assumptions C03_check_accepted_sound.
+
+(* exact regime (case tolerance 0): the observed array IS the model's array *)
+Theorem C03_check_accepted_exact : forall tol mls fls e t1 t2 mi nv cells valid vd vm oa,
+  (tol <= 0)%Q ->
+  check_C03 (CExpr tol mls fls e t1 t2 (Some (mi, nv, cells, valid, vd, vm)) oa) = true ->
+  exists f, model_eval tol mls fls e t1 t2 = OK (VF f) /\
+    mesh_same (fmesh f) (nth mi (map build_mesh mls) dmesh) /\
+    fnv f = nv /\ farr f = cells_cq cells /\ fvalid f = valid /\ fvdims f = vd /\
+    vmap_same (fvmap f) vm /\ alias_of e = oa.
+Proof. exact check_expr_ok_exact. Qed.
+Print Assumptions C03_check_accepted_exact.
+
+(* accept / reject agree *)
+Theorem C03_check_verdict : forall tol mls fls e t1 t2 obs oa,
+  check_C03 (CExpr tol mls fls e t1 t2 obs oa) = true ->
+  (obs = None <-> is_ok (model_eval tol mls fls e t1 t2) = false).
+Proof. exact check_expr_verdict. Qed.
+Print Assumptions C03_check_verdict.
+
+(* a whole shard: no failing index means every case was accepted *)
+Theorem C03_shard_verdict : forall cases k,
+  failing k (map check_C03 cases) = [] -> forall c, In c cases -> check_C03 c = true.
+Proof. exact shard_verdict. Qed.
+Print Assumptions C03_shard_verdict.
+
+(* the well-formedness hypothesis of C03_cellwise / C03_stack_components is established by a decidable
+   test on the recorded operand literals (same mesh number, N cells, N validity flags) *)
+Theorem C03_recorded_operands_wf : forall mls fls N mi,
+  forallb (lit_wfb N mi) fls = true ->
+  Forall (wf_leaf CQ N (nth mi (map build_mesh mls) dmesh)) (env_fields mls fls).
+Proof. exact env_wf. Qed.
+Print Assumptions C03_recorded_operands_wf.
+
+(* transfer of C03_cellwise: every OBSERVED cell is within the case tolerance of the plain cell-wise value
+   of the expression on the recorded operands, the OBSERVED validity is the AND over the field operands ... *)
+Theorem C03_accepted_cellwise : forall tol mls fls e t1 t2 mi nv cells valid vd vm oa N mi0,
+  check_C03 (CExpr tol mls fls e t1 t2 (Some (mi, nv, cells, valid, vd, vm)) oa) = true ->
+  forallb (lit_wfb N mi0) fls = true -> consts_ok CQ N e ->
+  mesh_same (nth mi0 (map build_mesh mls) dmesh) (nth mi (map build_mesh mls) dmesh) /\
+  length cells = N /\ length valid = N /\
+  forall c, (c < N)%nat ->
+    vec_within tol (den CQ (un_cq tol t1) (lookup2 tol t2) (env_fields mls fls) e c) (nth c (cells_cq cells) []) /\
+    nth c valid true = den_valid CQ (env_fields mls fls) e c.
+Proof. exact accepted_cellwise. Qed.
+Print Assumptions C03_accepted_cellwise.
+
+(* ... and in the exact regime every observed cell IS that value *)
+Theorem C03_accepted_cellwise_exact : forall tol mls fls e t1 t2 mi nv cells valid vd vm oa N mi0,
+  (tol <= 0)%Q ->
+  check_C03 (CExpr tol mls fls e t1 t2 (Some (mi, nv, cells, valid, vd, vm)) oa) = true ->
+  forallb (lit_wfb N mi0) fls = true -> consts_ok CQ N e ->
+  length cells = N /\ length valid = N /\
+  forall c, (c < N)%nat ->
+    nth c (cells_cq cells) [] = den CQ (un_cq tol t1) (lookup2 tol t2) (env_fields mls fls) e c /\
+    nth c valid true = den_valid CQ (env_fields mls fls) e c.
+Proof. exact accepted_cellwise_exact. Qed.
+Print Assumptions C03_accepted_cellwise_exact.
+
+Example C03_accepted_cellwise_instance :
+  check_C03 (CExpr 0 [xm1] [xf0; xf1] xe1 [] []
+               (Some (0%nat, 1%nat, [[((-5), 0)]; [((-3), (-2))]], [true; false], None, [])%Q) None) = true
+  /\ forallb (lit_wfb 2 0) [xf0; xf1] = true /\ consts_ok CQ 2 xe1.
+Proof. exact accepted_cellwise_instance. Qed.
+Print Assumptions C03_accepted_cellwise_instance.
+
+Example C03_rejected_instance :
+  check_C03 (CExpr 0 [xm1] [xf0; xf1] xe1 [] []
+               (Some (0%nat, 1%nat, [[((-5), 0)]; [((-3), 2)]], [true; false], None, [])%Q) None) = false.
+Proof. exact rejected_instance. Qed.
+Print Assumptions C03_rejected_instance.
+
+(* transfer of C03_pure_identity / C03_pure_alias_is_operand: when the implementation handed back operand
+   object number i, the expression is +(+(... f_i)) and the observed field has operand i's recorded component
+   count, validity, labels, mapping and array *)
+Theorem C03_accepted_alias_is_operand : forall tol mls fls e t1 t2 mi nv cells valid vd vm i,
+  check_C03 (CExpr tol mls fls e t1 t2 (Some (mi, nv, cells, valid, vd, vm)) (Some i)) = true ->
+  strip_pos e = Leaf i /\
+  exists mi' cells' vm', nth_error fls i = Some (mi', nv, cells', valid, vd, vm') /\
+    cells_within tol (cells_cq cells') (cells_cq cells) /\ vmap_same vm' vm.
+Proof. exact accepted_alias_is_operand. Qed.
+Print Assumptions C03_accepted_alias_is_operand.
+
+Example C03_accepted_alias_instance :
+  check_C03 (CExpr 0 [xm1] [xf0; xf1] (Un Pos (Un Pos (Leaf 0))) [] [] (Some xf0) (Some 0%nat)) = true.
+Proof. exact accepted_alias_instance. Qed.
+Print Assumptions C03_accepted_alias_instance.
+
+(* transfer of C03_reject_other_mesh(_stack) / C03_reject_component_count: in an accepted case the
+   implementation raised *)
+Theorem C03_accepted_other_mesh_raises : forall tol mls fls o i j fi fj t1 t2 obs oa,
+  nth_error fls i = Some fi -> nth_error fls j = Some fj -> arithmetic o = true ->
+  mesh_allclose (fmesh (build_field (map build_mesh mls) fi)) (fmesh (build_field (map build_mesh mls) fj)) <> OK true ->
+  check_C03 (CExpr tol mls fls (Bin o (Leaf i) (Leaf j)) t1 t2 obs oa) = true -> obs = None.
+Proof. exact accepted_other_mesh_raises. Qed.
+Print Assumptions C03_accepted_other_mesh_raises.
+
+Theorem C03_accepted_other_mesh_stack_raises : forall tol mls fls i j fi fj t1 t2 obs oa,
+  nth_error fls i = Some fi -> nth_error fls j = Some fj ->
+  mesh_eqb (fmesh (build_field (map build_mesh mls) fi)) (fmesh (build_field (map build_mesh mls) fj)) = false ->
+  check_C03 (CExpr tol mls fls (Bin Stack (Leaf i) (Leaf j)) t1 t2 obs oa) = true -> obs = None.
+Proof. exact accepted_other_mesh_stack_raises. Qed.
+Print Assumptions C03_accepted_other_mesh_stack_raises.
+
+Theorem C03_accepted_component_count_raises : forall tol mls fls (a : aop) o i j fi fj t1 t2 obs oa,
+  nth_error fls i = Some fi -> nth_error fls j = Some fj ->
+  In o [Alg a; Uf2 (CAlg a); Dot; Cross; Angle] ->
+  fnv (build_field (map build_mesh mls) fi) <> fnv (build_field (map build_mesh mls) fj) ->
+  fnv (build_field (map build_mesh mls) fi) <> 1%nat -> fnv (build_field (map build_mesh mls) fj) <> 1%nat ->
+  check_C03 (CExpr tol mls fls (Bin o (Leaf i) (Leaf j)) t1 t2 obs oa) = true -> obs = None.
+Proof. exact accepted_component_count_raises. Qed.
+Print Assumptions C03_accepted_component_count_raises.
+
+Example C03_accepted_other_mesh_instance :
+  check_C03 (CExpr 0 [xm1; xm2] [xf0; xf3] (Bin (Alg Add) (Leaf 0) (Leaf 1)) [] [] None None) = true
+  /\ mesh_allclose (fmesh (build_field (map build_mesh [xm1; xm2]) xf0))
+                   (fmesh (build_field (map build_mesh [xm1; xm2]) xf3)) <> OK true.
+Proof. exact accepted_other_mesh_instance. Qed.
+Print Assumptions C03_accepted_other_mesh_instance.
+
+(* transfer of C03_stack_components: the OBSERVED result of f.c0 << ... << f.cj has operand f's recorded
+   array and validity *)
+Theorem C03_accepted_stack_components :
+  forall tol mls fls i j t1 t2 mi nv cells valid vd vm oa N mi0 mi' nv' cells' valid' vd' vm',
+  (tol <= 0)%Q ->
+  check_C03 (CExpr tol mls fls (stack_from CQ (Leaf i) j) t1 t2 (Some (mi, nv, cells, valid, vd, vm)) oa) = true ->
+  forallb (lit_wfb N mi0) fls = true ->
+  nth_error fls i = Some (mi', nv', cells', valid', vd', vm') ->
+  Forall (fun cell => length cell = S j) cells' ->
+  cells_cq cells = cells_cq cells' /\ valid = valid'.
+Proof. exact accepted_stack_components. Qed.
+Print Assumptions C03_accepted_stack_components.
+
+Example C03_accepted_stack_instance :
+  check_C03 (CExpr 0 [xm1] [xf0; xf2] (stack_from CQ (Leaf 1) 1) [] []
+               (Some (0%nat, 2%nat, [[(3, 0); (4, 0)]; [((5 # 2), 1); (7, 0)]], [true; false],
+                      Some ["x"%string; "y"%string], [])%Q) None) = true
+  /\ forallb (lit_wfb 2 0) [xf0; xf2] = true.
+Proof. exact accepted_stack_instance. Qed.
+Print Assumptions C03_accepted_stack_instance.
+
+(* transfer of C03_commutative_partial: both operand orders of + (of * ) accepted, possibly with different
+   tolerances and tables -- either both raised, or the two OBSERVED fields have the same component count,
+   validity, labels, mapping (as a set) and arrays within the sum of the tolerances (equal when both are 0) *)
+Theorem C03_accepted_commutative : forall tolA tolB mls fls (a : aop) i j fi fj t1A t2A t1B t2B oA oB aA aB,
+  (a = Add \/ a = Mul) ->
+  nth_error fls i = Some fi -> nth_error fls j = Some fj ->
+  fmesh (build_field (map build_mesh mls) fi) = fmesh (build_field (map build_mesh mls) fj) ->
+  (1 <= fnv (build_field (map build_mesh mls) fi))%nat -> (1 <= fnv (build_field (map build_mesh mls) fj))%nat ->
+  (fnv (build_field (map build_mesh mls) fi) = fnv (build_field (map build_mesh mls) fj) ->
+   fvdims (build_field (map build_mesh mls) fi) = fvdims (build_field (map build_mesh mls) fj) /\
+   fvmap (build_field (map build_mesh mls) fi) = fvmap (build_field (map build_mesh mls) fj)) ->
+  check_C03 (CExpr tolA mls fls (Bin (Alg a) (Leaf i) (Leaf j)) t1A t2A oA aA) = true ->
+  check_C03 (CExpr tolB mls fls (Bin (Alg a) (Leaf j) (Leaf i)) t1B t2B oB aB) = true ->
+  match oA, oB with
+  | None, None => True
+  | Some (_, nv1, c1, v1, vd1, vm1), Some (_, nv2, c2, v2, vd2, vm2) =>
+      nv1 = nv2 /\ v1 = v2 /\ vd1 = vd2 /\ vmap_same vm1 vm2 /\
+      cells_within (tolA + tolB) (cells_cq c1) (cells_cq c2) /\
+      ((tolA <= 0)%Q -> (tolB <= 0)%Q -> cells_cq c1 = cells_cq c2)
+  | _, _ => False
+  end.
+Proof. exact accepted_commutative. Qed.
+Print Assumptions C03_accepted_commutative.
+
+Example C03_accepted_commutative_instance :
+  let obs := Some (0%nat, 2%nat, [[(3, 0); (4, 0)]; [(5, 2); (14, 0)]], [true; false],
+                   Some ["a"%string; "b"%string], [])%Q in
+  check_C03 (CExpr 0 [xm1] [xf0; xf2] (Bin (Alg Mul) (Leaf 0) (Leaf 1)) [] [] obs None) = true /\
+  check_C03 (CExpr 0 [xm1] [xf0; xf2] (Bin (Alg Mul) (Leaf 1) (Leaf 0)) [] [] obs None) = true.
+Proof. exact accepted_commutative_instance. Qed.
+Print Assumptions C03_accepted_commutative_instance.
